@@ -3,6 +3,7 @@ import ast
 
 from ..core import astutil as A
 from ..core import boolx
+from ..core import generic as G
 from ..core import match as M
 from ..core.mirror import alpha_canon, clone
 from ..core.model import dotted
@@ -315,6 +316,69 @@ def run(ctx):
               "match: all flags known -> plain; default contradicts the request -> False; remaining known flags -> match those; none left -> True",
               f"_UseDepDefaultContainment.match case split is tests={tests} returns={rets}")
     ctx.floor("R3", 16)
+
+    # ---- R4 equality of a restriction covers everything its match() consults ---------------------------------------
+    # (equal restrictions are interchangeable: boolean.AndRestriction hands out one cached instance per equal child tuple)
+    from ..core import eqhash
+    EQ = eqhash.Engine(P)
+    DERIVED_OK = {
+        "_pull_attr_func": "lazily built from _attr_split, which equality compares",
+        "ignore_missing": "never passed by the *Dep constructors: constant for every restriction an atom builds (checked below)",
+        "_attr_split": "Conditional compares `attr`, from which _attr_split is built",
+    }
+    rmod = P.module("pkgcore.ebuild.restricts")
+    n_cls = 0
+    for K in rmod.classes.values():
+        owner, mt = P.lookup_attr(K, "match")
+        if not hasattr(mt, "node"):
+            continue
+        spec = EQ.eq_spec(K)
+        if spec["kind"] not in ("fields", "custom"):
+            continue
+        n_cls += 1
+        eqf = set(spec["fields"]) - {"__class__"}
+        der = EQ.init_derivations(K)
+        cov = set(eqf)
+        for fld in eqf:
+            cov |= der.get(fld, set())
+        reads = set(EQ.self_reads(mt, K)) - {"__class__"}
+        for a in sorted(reads - eqf):
+            d = der.get(a)
+            if d and d <= cov | {"self"}:
+                continue  # computed in __init__ from compared fields only
+            ctx.check("R4", K, a in DERIVED_OK, f"match-reads-uncompared:{K.name}.{a}",
+                      f"{K.name}.match consults `{a}`: {DERIVED_OK.get(a, '')}",
+                      f"{K.name}.match consults `self.{a}` but equality ({'__attr_comparison__' if spec['kind'] == 'fields' else '__eq__'} = {sorted(eqf)}) "
+                      f"does not compare it: two restrictions that differ only in `{a}` are equal, hash alike and are merged by the instance cache of "
+                      f"boolean restrictions, so an atom can receive the restriction of another atom", node=K.node)
+        ctx.ob("R4", K, f"{K.name}: match() reads {sorted(reads)}; equality compares {sorted(eqf)}")
+    ctx.require(n_cls >= 8, f"only {n_cls} restriction classes with match() and field equality found in ebuild/restricts.py")
+    for K in rmod.classes.values():
+        init = K.methods.get("__init__")
+        if init is None:
+            continue
+        for c in A.calls(init.node):
+            if any(k.arg == "ignore_missing" for k in c.keywords):
+                ctx.fail("R4", init, f"ignore_missing-passed:{K.name}", f"{K.name}.__init__ passes ignore_missing, which equality does not compare", node=c)
+    ctx.floor("R4", 8)
+
+    # ---- R5 constructor flags reach the parameter they are named after ----------------------------------------------
+    n_calls = G.arg_binding(ctx, "R5", ["src/pkgcore/ebuild/restricts.py", "src/pkgcore/ebuild/atom.py"])
+    ctx.require(n_calls >= 20, f"only {n_calls} resolved call sites in restricts.py/atom.py")
+
+    # ---- R6 the version operands reach ver_cmp as given (Revision objects compare numerically, strings do not) ------
+    vm_init = P.func("pkgcore.ebuild.restricts", "_VersionMatch.__init__")
+    for fld in ("ver", "rev"):
+        st = [(t, v, s_) for t, v, s_ in A.assignments(vm_init.node) if A.self_attr(t) == fld]
+        ctx.check("R6", vm_init, len(st) >= 1, f"operand-stored:{fld}", f"_VersionMatch stores `{fld}`")
+        for t, v, s_ in st:
+            verbatim = isinstance(v, ast.Name) and v.id in vm_init.params()
+            retyped = isinstance(v, ast.Call) and (dotted(v.func) or "").split(".")[-1] in ("Revision",) and len(v.args) == 1 and isinstance(v.args[0], ast.Name)
+            ctx.check("R6", vm_init, verbatim or retyped, f"operand-verbatim:{fld}",
+                      f"_VersionMatch keeps the `{fld}` operand as given",
+                      f"_VersionMatch stores `{A.unparse(v)}` as its `{fld}` operand: the object handed to ver_cmp is no longer the atom's own "
+                      f"version / Revision (a str revision compares as text: -r9 > -r10)", node=s_)
+    ctx.floor("R6", 4)
 
 
 MUTANTS = [
